@@ -44,7 +44,7 @@ pub fn gen_spec(rng: &mut Rng) -> Kdbx4Spec {
     let outer = rng.pick(&[Outer::Aes256, Outer::Twofish, Outer::ChaCha20]).clone();
     let inner = rng.pick(&[Inner::Plain, Inner::Salsa20, Inner::ChaCha20]).clone();
     let inner_key = match inner {
-        Inner::Salsa20 => rng.bytes_pick(&[32usize, 32, 64, 16]), // any length: the cipher is keyed with SHA-256 of it
+        Inner::Salsa20 => rng.bytes(32),
         Inner::ChaCha20 => rng.bytes_pick(&[32usize, 64]),
         Inner::Plain => rng.bytes_pick(&[0usize, 1, 32]),
     };
